@@ -20,6 +20,7 @@ import subprocess
 import sys
 import time
 import traceback
+import warnings
 from pathlib import Path
 
 from . import coqbuild
@@ -114,6 +115,7 @@ def main(argv=None):
     pid = args.pid.upper()
     seed = int(os.environ.get("VERIF_SEED", "0"))
     t0 = time.time()
+    warnings.filterwarnings("ignore")
     mod = importlib.import_module(f"harness.props.{pid.lower()}")
 
     if args.replay:
